@@ -1,7 +1,9 @@
 //! Known_C01 - the Rust twin of Model/KnownC01.v `known_c01` (used by c01.rs and, without a base, by the
 //! href setter of c07.rs).  The classes are the EXACT exclusions of the proved class theorems of C01:
 //!   1 the file scheme is involved (effective scheme `file`), except scheme-less references that are
-//!     empty or start with '?' / '#';
+//!     empty or start with '?' / '#', and except "file:" R with no base or a base whose scheme is not
+//!     file when R is inside the recogniser `k_file_ok` of the proved file class (C01_known_file_exact,
+//!     C01_statement_all2); `known_c01_v1` is the predicate before that narrowing;
 //!   2 a ".." (any spelling) would pop a drive-letter-shaped segment in the path the Standard's path
 //!     state builds (F-C01-9: parser.rs never pops such a segment, in any scheme);
 //!   3 non-special authority: a port number <= 65535 directly followed by '\' (F-C01-8);
@@ -197,8 +199,119 @@ fn base_stack(path: &str) -> Vec<bool> {
     w
 }
 
+// ---- the file scheme: the recogniser of the proved file class (Model/KnownC01.v kf_* / k_file_ok) ----
+// the Standard's file path state (both Windows-drive-letter quirks) on raw segments
+fn is_wdl(s: &[char]) -> bool {
+    s.len() == 2 && s[0].is_ascii_alphabetic() && (s[1] == ':' || s[1] == '|')
+}
+fn is_nwdl(s: &[char]) -> bool {
+    is_wdl(s) && s[1] == ':'
+}
+fn kf_pref(b: &[char]) -> bool {
+    b.len() >= 2 && b[0].is_ascii_alphabetic() && (b[1] == ':' || b[1] == '|')
+}
+fn kf_fin(p: &mut Vec<Vec<char>>, b: &[char], sep: bool) {
+    if double_dot(b) {
+        if !(p.len() == 1 && is_nwdl(&p[0])) {
+            p.pop();
+        }
+        if !sep {
+            p.push(vec![]);
+        }
+    } else if single_dot(b) {
+        if !sep {
+            p.push(vec![]);
+        }
+    } else {
+        let mut s = b.to_vec();
+        if p.is_empty() && is_wdl(&s) {
+            s[1] = ':';
+        }
+        p.push(s);
+    }
+}
+/// (kf_path t [] [], kf_path_ok hh t [] [])
+fn kf_run(hh: bool, t: &[char]) -> (Vec<Vec<char>>, bool) {
+    let mut p: Vec<Vec<char>> = vec![];
+    let mut b: Vec<char> = vec![];
+    let mut ok = true;
+    let fin_ok = |p: &Vec<Vec<char>>, b: &[char]| {
+        !(double_dot(b) && p.last().map_or(false, |s| wdl_seg(s))) && !(hh && p.is_empty() && is_wdl(b))
+    };
+    for &c in t {
+        if is_sl(c) {
+            ok &= fin_ok(&p, &b);
+            kf_fin(&mut p, &b, true);
+            b.clear();
+        } else if c == '?' || c == '#' {
+            ok &= fin_ok(&p, &b);
+            kf_fin(&mut p, &b, false);
+            return (p, ok);
+        } else {
+            if p.is_empty() && kf_pref(&b) {
+                ok = false;
+            }
+            b.push(c);
+        }
+    }
+    ok &= fin_ok(&p, &b);
+    kf_fin(&mut p, &b, false);
+    (p, ok)
+}
+fn kf_strip(p: &[Vec<char>]) -> Vec<Vec<char>> {
+    let n = p.iter().take_while(|s| s.is_empty()).count();
+    if n == p.len() {
+        vec![vec![]]
+    } else {
+        p[n..].to_vec()
+    }
+}
+fn kf_ok(hh: bool, tm: &[char], ts: &[char]) -> bool {
+    let (pm, ok) = kf_run(hh, tm);
+    let (ps, _) = kf_run(false, ts);
+    ok && kf_strip(&pm) == ps
+}
+/// the text R after "file:" is inside the proved file class
+pub fn k_file_ok(r: &[char]) -> bool {
+    if r.first().map_or(false, |c| is_sl(*c)) {
+        let r1 = &r[1..];
+        if r1.first().map_or(false, |c| is_sl(*c)) {
+            let t = &r1[1..];
+            let end = t.iter().position(|&c| is_ae(true, c)).unwrap_or(t.len());
+            let (h, x) = (&t[..end], &t[end..]);
+            let xt = if x.first().map_or(false, |c| is_sl(*c)) { &x[1..] } else { x };
+            !is_wdl(h) && kf_ok(false, x, xt) && (h.is_empty() || kf_ok(true, xt, xt))
+        } else {
+            kf_ok(false, r1, r1)
+        }
+    } else {
+        kf_ok(false, r, r)
+    }
+}
+/// "file:" R with no base or a base with another scheme, R inside the proved class
+fn file_narrow(base: Option<&KBase>, input: &str) -> bool {
+    let t = cleaned(input);
+    match leading_scheme(&t) {
+        Some(s) => {
+            let p = t.iter().position(|&c| c == ':').map(|p| p + 1).unwrap_or(t.len());
+            s == "file" && base.map_or(true, |b| b.scheme != "file") && k_file_ok(&t[p..])
+        }
+        None => false,
+    }
+}
+
 /// Known_C01: 0 = not known, 1..4 = class
 pub fn known_c01(base: Option<&KBase>, input: &str) -> u32 {
+    let k = known_c01_v1(base, input);
+    if k == 1 && file_narrow(base, input) {
+        0
+    } else {
+        k
+    }
+}
+
+/// Known_C01 before class 1 was narrowed (class 1 = the whole file scheme)
+pub fn known_c01_v1(base: Option<&KBase>, input: &str) -> u32 {
     let t = cleaned(input);
     let sch = leading_scheme(&t);
     let bscheme = base.map(|b| b.scheme.to_string());
